@@ -285,8 +285,9 @@ def _match_form(case, f, opmap, raw, mode, cur):
         if prefix == "3DNOW":
             if cur.take() != 0x0F:
                 raise Mismatch("3DNow! escape 0F 0F expected")
-    # lock
-    if (0xF0 in legacy) != bool(opts & G.OPT_LOCK):
+    # lock (in 32-bit mode F0 0F 20/22 is the alternative encoding of CR8: `lock mov cr0` == `mov cr8`)
+    cr8_alt = mode == 32 and any(op[0] == "R" and op[1] == "creg" and op[2] >= 8 for op in case["ops"])
+    if (0xF0 in legacy) != (bool(opts & G.OPT_LOCK) or cr8_alt):
         raise Mismatch("LOCK prefix %s" % ("missing" if opts & G.OPT_LOCK else "emitted but not requested"))
     # W
     w = opc["w"]
@@ -589,6 +590,8 @@ def _check_reg(c, enc_id, rex_present, where, mode):
         want = rid
     if mode == 32 and rtype not in ("creg", "dreg"):
         enc_id &= 7 if rtype not in ("xmm", "ymm", "zmm") else 7
+    if mode == 32 and rtype == "creg":
+        want &= 7   # CR8..15 use the LOCK-prefix alternative encoding in 32-bit mode
     if enc_id != want:
         raise Mismatch("%s encodes register %d, case says %s:%d" % (where, enc_id, rtype, rid))
 
@@ -634,7 +637,7 @@ def _check_mem(cur, m, mod, rm, mode, addr_override, X, B, V2, evex, scale, o):
         elif mod == 0:
             disp = 0
         elif mod == 1:
-            disp = _signed(cur.take_n(1), 1)
+            disp = _signed(cur.take_n(1), 1) * scale
         else:
             disp = _signed(cur.take_n(2), 2)
         got_b = ("gp16", b) if b is not None else None
@@ -676,6 +679,8 @@ def _check_mem(cur, m, mod, rm, mode, addr_override, X, B, V2, evex, scale, o):
     if dsz == 1:
         disp *= scale
     wb, wi = m["base"], m["index"]
+    if wb and wb[0] == "rip":
+        wb = ("rip", 0)
     if rip:
         if wb != ("rip", 0) or wi is not None:
             raise Mismatch("RIP-relative encoding, case says base=%s index=%s" % (wb, wi))
